@@ -10,7 +10,7 @@ def one(d):
     m = json.load(open(os.path.join(d, "meta.json")))
     checks = ",".join(m["checks"].keys())
     out = subprocess.run([os.path.join(here, "tools", "eval_mutant.sh"), os.path.join(d, "patch.diff"), os.path.join(d, "demo.py"), checks, "quick"],
-                         capture_output=True, text=True).stdout
+                         capture_output=True, text=True, env=dict(os.environ, MUT_BASE=m.get("base_commit", "HEAD"))).stdout
     res = {}
     for line in out.splitlines():
         mm = re.match(r"check (C\d+) rc=(\d+): (\d+) VIOLATION", line)
